@@ -336,6 +336,63 @@ def renamed_layouts(_=None) -> Dict[str, Any]:
     return {"problems": problems, "stats": {"renamed_cases": n}}
 
 
+def aliased_structs(_=None) -> Dict[str, Any]:
+    """(f) structs whose size is not their alignment, reached through an ALIAS (the struct lives in an imported file, the alias in
+    the importing one; also an alias of that alias): the alias lays out like the struct itself - parser model only, the outputs of
+    such closures are C15's known emission-order finding"""
+    structs = {"S12_4": ({"x": "int32", "y": "int32", "z": "int32"}, 12, 4), "S6_2": ({"a": "int16", "b": "int16", "c": "int16"}, 6, 2),
+               "S3_1": ({"c": "char[3]"}, 3, 1), "S24_8": ({"d": "double", "a": "int32", "b": "int32", "e": "double"}, 24, 8), "S20_4": ({"v": "int32[5]"}, 20, 4),
+               "S16_8": ({"d": "double", "e": "double"}, 16, 8)}
+    heads = {"int32": (4, 4), "int16": (2, 2), "char": (1, 1), "double": (8, 8)}
+    problems = []
+    n = 0
+    d = core.scratch_dir("c11a")
+    try:
+        for sname, (sf, ssize, sal) in structs.items():
+            for via in ("alias", "alias-of-alias", "direct"):
+                tname = {"alias": "AL_S", "alias-of-alias": "AL_S2", "direct": sname}[via]
+                for hname, (hs, ha) in heads.items():
+                    for shape in ("head-then-struct", "struct-then-head", "head-then-array"):
+                        if shape == "head-then-struct":
+                            fields, lay = {"h": hname, "pos": tname}, [(hs, ha), (ssize, sal)]
+                        elif shape == "struct-then-head":
+                            fields, lay = {"pos": tname, "h": hname}, [(ssize, sal), (hs, ha)]
+                        else:
+                            fields, lay = {"h": hname, "pos": f"{tname}[2]"}, [(hs, ha), (2 * ssize, sal)]
+                        off, mx, pads = 0, 1, 0
+                        for sz, a in lay:
+                            if (-off) % a:
+                                pads += 1
+                                off += (-off) % a
+                            off += sz
+                            mx = max(mx, a)
+                        if (-off) % mx:
+                            pads += 1
+                            off += (-off) % mx
+                        files = {"root.yaml": {"imports": ["lib/geom.yaml"], "aliases": {"AL_S": sname, "AL_S2": "AL_S"} if via != "direct" else {},
+                                               "message_defs": {"TRACK": {"id": 4150, "fields": fields}}},
+                                 "lib/geom.yaml": {"struct_defs": {sname: {"fields": dict(sf)}}}}
+                        if via == "direct":
+                            files["root.yaml"].pop("aliases")
+                        root = defx.Program(files).write(d)
+                        for auto_pad in (True, False):
+                            n += 1
+                            try:
+                                pm = defx.parse_model(root, import_coredefs=False, auto_pad=auto_pad)
+                                md = pm.message_defs["TRACK"]
+                                npad = sum(1 for f in md.fields if f.name.startswith("padding_"))
+                                got = ("accepted", md.size, npad)
+                            except Exception as e:
+                                got = (type(e).__name__,)
+                            want = ("accepted", off, pads) if (auto_pad or pads == 0) else ("AlignmentError",)
+                            if got != want:
+                                problems.append({"kind": "aliased-struct-layout", "struct": sname, "via": via, "head": hname, "shape": shape, "auto_pad": auto_pad,
+                                                 "got": list(got), "want": list(want)})
+    finally:
+        core.rmtree(d)
+    return {"problems": problems, "stats": {"aliased_struct_cases": n}}
+
+
 def metadata_variants(_=None) -> Dict[str, Any]:
     """(f) what a definition file says about itself (metadata of a combined / generated file, in the root or in an imported file)
     has no bearing on layout rules: the same definitions get the same verdict and the same padding"""
@@ -433,7 +490,13 @@ def cli_options(_=None) -> Dict[str, Any]:
     try:
         mis = {"a": "char", "b": "int32"}  # needs 3 padding bytes
         ok = {"a": "int32", "b": "int32"}
-        for opts, fields, flags, want_exit, label in (
+        for opts, fields, flags, want_exit, label, *imported in (
+                # what an IMPORTED file says about the layout options concerns nobody but (at most) itself
+                ({}, mis, ["--no_auto_pad"], 1, "--no_auto_pad flag, the imported file says AUTO_PAD true", {"AUTO_PAD": "true"}),
+                ({"AUTO_PAD": "false"}, mis, [], 1, "AUTO_PAD false in the root file, the imported file says AUTO_PAD true", {"AUTO_PAD": "true"}),
+                ({"AUTO_PAD": "false"}, mis, [], 1, "AUTO_PAD false in the root file, the imported file says VALIDATE_ALIGNMENT false", {"VALIDATE_ALIGNMENT": "false"}),
+                ({"AUTO_PAD": "false"}, ok, [], 0, "AUTO_PAD false in the root file, aligned, the imported file says AUTO_PAD true", {"AUTO_PAD": "true", "VALIDATE_ALIGNMENT": "true"}),
+                ({}, mis, [], 0, "defaults, misaligned, the imported file says AUTO_PAD false (and is aligned itself)", {"AUTO_PAD": "false"}),
                 ({"AUTO_PAD": "false"}, mis, [], 1, "AUTO_PAD false in file, misaligned"),
                 ({"AUTO_PAD": "false"}, ok, [], 0, "AUTO_PAD false in file, aligned"),
                 ({"AUTO_PAD": "true"}, mis, [], 0, "AUTO_PAD true in file, misaligned"),
@@ -445,6 +508,12 @@ def cli_options(_=None) -> Dict[str, Any]:
             sub = os.path.join(d, f"c{n}")
             os.makedirs(sub)
             lines = []
+            if imported:
+                os.makedirs(os.path.join(sub, "vendor"))
+                with open(os.path.join(sub, "vendor", "lib.yaml"), "w") as fh:
+                    fh.write("\n".join(["compiler_options:"] + [f"  {k}: {v}" for k, v in imported[0].items()]
+                                       + ["struct_defs:", "  LIB_S:", "    fields:", "      p: int32", "      q: int32"]) + "\n")
+                lines += ["imports:", "  - vendor/lib.yaml"]
             if opts:
                 lines.append("compiler_options:")
                 lines += [f"  {k}: {v}" for k, v in opts.items()]
@@ -486,6 +555,7 @@ def run(tier: str) -> int:
     res = core.pmap(check_batch, batches)
     res.append(size_boundaries())
     res.append(cli_options())
+    res.append(aliased_structs())
     res.append(renamed_layouts())
     res.append(metadata_variants())
     res.append(user_fields_named_like_padding())
@@ -500,7 +570,7 @@ def run(tier: str) -> int:
     chk.sample({"sequence": list(seqs[0]), "fields": fields_of(seqs[0]), "reference": reference_layout(seqs[0])})
     chk.sample({"sequence": list(seqs[-1]), "fields": fields_of(seqs[-1]), "reference": reference_layout(seqs[-1])})
     chk.assumptions += ["gcc (x86-64 SysV) layout is the ground truth for C", "ctypes layout for Python", "import_coredefs off (layout code is independent of the core definitions)"]
-    return chk.finish({"evaluations": totals.get("cases", 0) * 2 + totals.get("size_cases", 0) + totals.get("renamed_cases", 0) + totals.get("metadata_cases", 0) + totals.get("user_padding_cases", 0), "distinct_nontrivial": totals.get("padded", 0)})
+    return chk.finish({"evaluations": totals.get("cases", 0) * 2 + totals.get("size_cases", 0) + totals.get("renamed_cases", 0) + totals.get("metadata_cases", 0) + totals.get("user_padding_cases", 0) + totals.get("aliased_struct_cases", 0) + totals.get("cli_cases", 0), "distinct_nontrivial": totals.get("padded", 0)})
 
 
 def replay(case) -> int:
